@@ -3,14 +3,21 @@
 . /verif/env.sh
 mkdir -p /verif/bin /verif/.work /verif/evidence /verif/replays
 ( cd /verif/tools/goinstr && go build -o /verif/bin/goinstr . ) || exit 1
+( cd /verif/tools/maprange && go build -o /verif/bin/maprange . ) || exit 1
 /verif/tools/gen_bk.sh || exit 1
 for d in /verif/src/cmd/*/; do
   n=$(basename $d)
   ov=/verif/.work/overlay-$n.json
   frags=""
-  if [ -f $d/instr.json ]; then
+  cfg=$d/instr.json
+  if [ -x $d/geninstr.sh ]; then
     mkdir -p /verif/.work/instr/$n
-    /verif/bin/goinstr -repo /repo -out /verif/.work/instr/$n -config $d/instr.json > /verif/.work/instr/$n/goinstr.log || exit 1
+    cfg=/verif/.work/instr/$n/instr.json
+    $d/geninstr.sh $cfg || exit 1
+  fi
+  if [ -f $cfg ]; then
+    mkdir -p /verif/.work/instr/$n
+    /verif/bin/goinstr -repo /repo -out /verif/.work/instr/$n -config $cfg > /verif/.work/instr/$n/goinstr.log || exit 1
     frags=/verif/.work/instr/$n
   fi
   VERIF_OVERLAY_FRAGS=$frags python3 /verif/tools/mkoverlay.py $ov || exit 1
